@@ -18,7 +18,7 @@ from vf.space import PO, POK, VA, KWO, VK, show
 
 PROP = 'C11'
 E = inspect.Parameter.empty
-PATTERNS = ('none', 'param', 'ret', 'both')
+PATTERNS = ('none', 'param', 'ret', 'both', 'stars')
 MODES = ((False, False), (True, True), (False, True), (True, False))
 
 
@@ -58,6 +58,8 @@ def make_fn(shape, pattern, future, T, name='f'):
     ann = {}
     if pattern in ('param', 'both') and named:
         ann = {named[0]: 'T'}
+    if pattern == 'stars':
+        ann = dict((p[0], 'T') for p in shape if p[1] in (VA, VK))
     if pattern == 'all':
         ann = dict((n, 'T') for n in named)
     if pattern == 'strlit':
@@ -174,7 +176,17 @@ def eval_pair(o, i, pat_o, pat_i, shared, st, same_names):
                     'mode': list(mode)}
             # same-named parameters (merge): which side an annotation comes from is not fixed by the property; what is
             # checked is that an unannotated result parameter denotes nothing and that evaluated() agrees with source_value()
-            probs = (resolution_problems(res, lambda n: f1 if n in names1 else f2, f1) if not same_names
+            stars1 = set(p[0] for p in o if p[1] in (VA, VK)) if pat_o == 'stars' else set()
+            stars2 = set(p[0] for p in i if p[1] in (VA, VK)) if pat_i == 'stars' else set()
+
+            def origin(n):
+                if n in names1:
+                    return f1
+                if n in stars1 or n in stars2:
+                    # a star annotated on one side only is that side's; annotated on both, either
+                    return None if (n in stars1 and n in stars2) else (f1 if n in stars1 else f2)
+                return f2
+            probs = (resolution_problems(res, origin, f1) if not same_names
                      else resolution_problems(res, lambda n: None, None))
             if probs:
                 st.violation('annotation-resolves-outside-its-defining-context', case,
@@ -191,7 +203,7 @@ def eval_pair(o, i, pat_o, pat_i, shared, st, same_names):
         for mode, r in by_mode.items():
             if r != ref:
                 cause = 'other'
-                if opn.startswith('merge') and ref is not None and ref[0] == 'ok' and r[0] == 'ok':
+                if (opn.startswith('merge') or (pat_o == 'stars' and pat_i == 'stars')) and ref is not None and ref[0] == 'ok' and r[0] == 'ok':
                     # merge decides whether two annotations agree by comparing them as written: the same spelling bound
                     # to different objects compares equal, an evaluated object and its postponed spelling compare unequal
                     strip = lambda x: (tuple(q[:3] for q in x[1][0]), x[1][1])
@@ -203,7 +215,9 @@ def eval_pair(o, i, pat_o, pat_i, shared, st, same_names):
                              {'operation': opn, 'shapes': [show(o), show(i)], 'annotated': [pat_o, pat_i],
                               'globals': 'shared' if shared else 'per function',
                               'compile_modes': ['postponed' if m else 'eager' for m in mode],
-                              'this_configuration': repr(r)[:300], 'all_eager_twin': repr(ref)[:300]}, {'cause': cause, 'op': opn.split('-')[0]})
+                              'this_configuration': repr(r)[:300], 'all_eager_twin': repr(ref)[:300]},
+                             {'cause': cause, 'op': 'star-parameters' if (pat_o == 'stars' and pat_i == 'stars' and not opn.startswith('merge'))
+                              else opn.split('-')[0]})
                 break
         st.seen('result', (opn, o, i, pat_o, pat_i, shared, ref))
 
